@@ -20,6 +20,10 @@ ASSOCIATIVE = {"AndRestriction", "OrRestriction"}
 SINGLE_OK = {"AndRestriction": True, "OrRestriction": True, "JustOneRestriction": True, "AtMostOneOfRestriction": False}
 
 
+META["technique"] += "; name-flow rule in transitive_use_atom.evaluate_conditionals (only the marker-free flag name is looked up in the enabled set)"
+META["level"] += " (R6) every membership test against the parent's enabled flags in transitive_use_atom.evaluate_conditionals uses the local from which the (+)/(-) marker was stripped."
+
+
 def run(ctx):
     P = ctx.program
     ctx.explanation = META["level"]
@@ -226,6 +230,21 @@ def run(ctx):
               f"same token occurring twice (e.g. through an enabled conditional) makes the group unsatisfiable; after de-duplication it is satisfiable", node=dd[0] if dd else None)
     ctx.floor("R5", 3)
 
+    # ---- R6 the parent's USE state is asked about the flag NAME, not the token with its (+)/(-) default ------------------
+    te = P.func("pkgcore.ebuild.atom", "transitive_use_atom.evaluate_conditionals")
+    enabled_p = te.params()[3] if len(te.params()) > 3 else None
+    ctx.require(enabled_p is not None, "transitive_use_atom.evaluate_conditionals: enabled parameter not found")
+    strip = [m_ for m_ in M.find(te.node, "if $r[-1] == ')':\n    $r = $r[:-3]")]
+    ctx.require(strip, "transitive_use_atom.evaluate_conditionals: the strip of the use-default marker `(+)`/`(-)` not found")
+    bare = strip[0]["r"]
+    asks = [c for c in ast.walk(te.node) if isinstance(c, ast.Compare) and len(c.ops) == 1 and isinstance(c.ops[0], (ast.In, ast.NotIn)) and A.unparse(c.comparators[0]) == enabled_p]
+    ctx.require(asks, "transitive_use_atom.evaluate_conditionals: no membership test against the enabled set found")
+    for c in asks:
+        ctx.check("R6", te, A.unparse(c.left) == bare, f"state-asked-by-bare-name:{A.unparse(c.left)}", f"`{A.unparse(c)}` asks about the marker-free name `{bare}`",
+                  f"`{A.unparse(c)}` looks `{A.unparse(c.left)}` up in the parent's enabled flags; only `{bare}` has the use-default marker stripped, so `x(+)=` / `x(-)?` is never found "
+                  f"enabled and the conditional is resolved as if the flag were off", node=c)
+    ctx.floor("R6", 2)
+
 
 MUTANTS = [
     {"name": "render-justone-missing", "file": "src/pkgcore/ebuild/conditionals.py", "old": "    elif isinstance(node, boolean.JustOneRestriction):\n        visit(\"^^ (\")\n        iterable = node.restrictions\n", "new": "", "rule": "R1"},
@@ -235,5 +254,8 @@ MUTANTS = [
     {"name": "single-collapse-always", "file": "src/pkgcore/restrictions/boolean.py", "old": "                or (len(l) == 1 and self._evaluate_collapse_single)", "new": "                or len(l) == 1", "rule": "R3"},
     {"name": "unclosed-accepted", "file": "src/pkgcore/ebuild/conditionals.py", "old": "        if len(depsets) != 1:\n            raise DepsetParseError(dep_str, attr=attr)", "new": "        if len(depsets) > 2:\n            raise DepsetParseError(dep_str, attr=attr)", "rule": "R2"},
     {"name": "atmostone-single-collapse", "file": "src/pkgcore/restrictions/boolean.py", "old": "    _evaluate_collapse_single = False\n", "new": "    _evaluate_collapse_single = True\n", "rule": "R3"},
+]
+MUTANTS += [
+    {"name": "state-asked-with-default-marker", "file": "src/pkgcore/ebuild/atom.py", "old": "                    if (raw_flag in enabled) == negated:\n                        continue", "new": "                    if (flag in enabled) == negated:\n                        continue", "rule": "R6"},
 ]
 TWINS = []
